@@ -161,7 +161,10 @@ def collect(tier, seed):
     for t in et:
         t["observer"] = rng.choice(["rec", "rec", "composite"])
         t["keep_events"] = True
+    bt = EC.bundled_observer_tasks(seed, 150 if tier == "quick" else 5000)
     ft, fr, _ftr = EC.run_tasks(et)
+    bft, bfr, _b = EC.run_tasks(bt)
+    ft, fr = ft + bft, fr + bfr
     for t, r in zip(ft, fr):
         if r["outcome"] == "hang":
             continue
